@@ -32,6 +32,7 @@ func genBehav(g *simrt.Tape, closes bool) ReqBehav {
 	b.DelayMs = []int{0, 0, 0, 1, 5, 20, 100, 500, 3000}[g.Draw(9)]
 	b.Yields = []int{0, 0, 1, 3, 7}[g.Draw(5)]
 	b.Notify = g.Draw(8) == 0
+	b.NotifyBad = b.Notify && g.Draw(3) == 0
 	if closes {
 		switch g.Draw(12) {
 		case 1:
@@ -98,7 +99,7 @@ func execC10(x *X, scAny any) {
 }
 
 // floors
-var c10Behavs = [][]ReqBehav{{{}}, {{DelayMs: 5}}, {{Yields: 3}}, {{DelayMs: 5}, {}}, {{}, {Notify: true}, {Notify: true, Yields: 2}}}
+var c10Behavs = [][]ReqBehav{{{}}, {{DelayMs: 5}}, {{Yields: 3}}, {{DelayMs: 5}, {}}, {{}, {Notify: true}, {Notify: true, Yields: 2}}, {{}, {Notify: true, NotifyBad: true}, {}, {}}}
 
 func c10ObserveFloor(tier string) []*ClientSc {
 	var out []*ClientSc
